@@ -44,7 +44,7 @@ THEOREMS = [NS + t for t in (
     'C12_sound_inst')]
 DESIGN_REF = 'DESIGN.md §7 C12'
 RULE = ('random DAG workbook files (C01 generator: 2-14 cells on one or two sheets, ranges, cross-sheet references; '
-        'formulas =ref, &, +, SUM, COUNT, INDEX; up to two cells that raise: plugin ValueError / NotImplementedError / '
+        'formulas =ref, &, +, -, =, SUM, COUNT, INDEX; up to two cells that raise: plugin ValueError / NotImplementedError / '
         'unknown function) with stored results from a fresh pycel evaluation; per workbook: the consistent file and each '
         'formula cell in turn perturbed (number far / just beyond / within tolerance, text, logical, logical<->equal '
         'number, error value, blank, empty text, the formula text) x tolerance {None, 0, 1/1024, 1/2, 2} x outputs '
@@ -53,12 +53,14 @@ RULE = ('random DAG workbook files (C01 generator: 2-14 cells on one or two shee
         'Non-trivial = a perturbed cell that is reachable from the outputs, or a file with a raising cell.')
 ASSUMPTIONS = [
     'non-iterative workbooks; the openpyxl wrapper (the only one shipped); raise_exceptions=False',
-    'formula language of the correspondence: =ref, &, +, SUM, COUNT, INDEX over cells and ranges; integers, text, '
+    'formula language of the correspondence: =ref, &, +, -, =, SUM, COUNT, INDEX over cells and ranges (workbooks of '
+    'the shared C01 generator with any other formula kind are skipped by `supported`); integers, text, '
     'logicals, blank inputs; no CSE arrays, no computed references (OFFSET/INDIRECT), no unbounded ranges (A:A)',
     'cells that raise are not members of a range node (the order in which _process_gen_graph evaluates several new '
     'ranges is not modelled; it is only observable when one of them raises)',
     'a stored text that spells an error code is not generated (pycel holds error values as strings)',
-    'numeric perturbations stay away from the closeness boundary by a factor 2 (float vs exact arithmetic)',
+    'numeric perturbations stay away from the closeness boundary by a factor 2 (float vs exact arithmetic); '
+    'non-integral perturbations are not applied to cells with & or = dependants',
     'the per-class address lists are compared as multisets; exception messages/keys are not compared',
 ]
 TRUSTED = ['modelled, not verified: openpyxl reading the file (data_only values), networkx, the formula evaluator of '
@@ -476,8 +478,9 @@ def perturb(nodes, c, kind, tol, rng=None):
     if kind in ('edge', 'near'):
         if not isnum:
             return None
-        if any(n[0] == 'F' and n[2] == 'cat' and c in clo for n, clo in zip(nodes, closure(nodes))):
-            return None      # a non-integral number would be rendered as text by a dependant (C10/C20 territory)
+        if any(n[0] == 'F' and n[2] in ('cat', 'eq') and c in clo for n, clo in zip(nodes, closure(nodes))):
+            return None      # a non-integral number would be rendered as text (C10/C20 territory) or compared
+                             # exactly after float arithmetic by a dependant
         if t is None:
             if old == 0:
                 d = 4e-8 if kind == 'edge' else 2.5e-9
@@ -539,6 +542,25 @@ def out_choices(rng, nodes):
             rng.sample(fs, min(len(fs), rng.randint(1, 3)))]
 
 
+F_KINDS = {'ref': 1, 'cat': None, 'add': 2, 'sub': 2, 'eq': 2, 'sum': None, 'cnt': None, 'idx': 3}
+
+
+def supported(nodes):
+    """only node shapes the driver (lean/Pycel/Drv/C12.lean) parses: a workbook from the shared generator with a
+    formula kind this module does not know is skipped, never reported"""
+    for n in nodes:
+        if n[0] == 'I' and len(n) == 3:
+            continue
+        if n[0] == 'R' and len(n) == 5:
+            continue
+        if n[0] == 'X' and len(n) == 6:
+            continue
+        if n[0] == 'F' and len(n) == 4 and n[2] in F_KINDS and (F_KINDS[n[2]] is None or len(n[3]) == F_KINDS[n[2]]):
+            continue
+        return False
+    return True
+
+
 def _fixed():
     t = W._tok
     w1 = [['I', 'Sheet1!A1', t(5)], ['F', 'Sheet1!B1', 'add', [0, 0]], ['F', 'Sheet1!C1', 'cat', [1]],
@@ -575,7 +597,7 @@ def cases(tier, rng):
     n_wb = 150 if thorough else 22
     for k in range(n_wb):
         nodes = W.gen_workbook(rng, free_ranges=False)
-        if not any(n[0] == 'F' for n in nodes):
+        if not any(n[0] == 'F' for n in nodes) or not supported(nodes):
             continue
         if k % 3 == 2:
             nodes = add_raising(rng, nodes, rng.randint(1, 2))
